@@ -118,9 +118,11 @@ def run_unit(arg):
         out["ufs_used"] = sorted(ex.ufs_used)
         out["inlined"] = sorted(ex.inlined)
         for ob in ex.obligations:
-            discharge(ob, timeout_ms=timeout)
+            discharge(ob, timeout_ms=timeout, cross_check=(tier == "thorough"))
             d = {"name": ob.name, "kind": ob.kind, "verdict": ob.verdict, "solver": ob.solver, "ms": round(ob.ms, 2),
                  "note": ob.note, "carries": ob.carries_property, "lineno": ob.lineno}
+            if getattr(ob, "cross", None):
+                d["cross"] = ob.cross
             if ob.verdict == "discharged" and ob.kind in ("post", "lemma") and tier == "thorough":
                 d["cover"] = cover_check(ob)
             cand = getattr(ob, "candidate", None)
@@ -175,6 +177,31 @@ def run_unit(arg):
                         d["replay"] = native.replay(c, inputs)
                     except BaseException as e:  # noqa
                         d["replay"] = {"confirmed": False, "error": repr(e)[:500]}
+                if c is not None and ob.kind.startswith("loop") and not ob.carries_property:
+                    # a refuted invariant obligation is a proof artefact (UNDECIDED) -- unless the REAL function, run
+                    # natively on that counter-model, satisfies `requires` and violates a post-condition of its
+                    # contract: then the deviation is genuine (nothing is trusted from the solver) and it is reported
+                    try:
+                        rp = native.replay(c, inputs) if isinstance(ob.model, dict) else None
+                    except BaseException:  # noqa
+                        rp = None
+                    if rp and rp.get("confirmed") and rp.get("requires_holds") is not False:
+                        d["replay"] = rp
+                        d["carries"] = True
+                        d["note"] = (d.get("note") or "") + " [counter-model of the invariant obligation violates a post-condition natively]"
+                    elif not searched.get(key):
+                        # the model describes an arbitrary iteration, not an input: bounded native search for an input
+                        # on which the real function violates its contract (finding none claims nothing: UNDECIDED)
+                        searched[key] = True
+                        try:
+                            from pyvc import selftest
+                            w = selftest.search_witness(repo, c, seed, n=4000)
+                        except BaseException:  # noqa
+                            w = None
+                        if w is not None and w.get("confirmed"):
+                            d["replay"] = w
+                            d["carries"] = True
+                            d["note"] = (d.get("note") or "") + " [invariant refuted; native search found an input violating a post-condition]"
                 if c is not None and ob.kind in ("post", "raises", "frame", "safe") and not (d.get("replay") or {}).get("confirmed") \
                         and not searched.get(key):
                     searched[key] = True
